@@ -7,8 +7,9 @@ with the same node table, whatever their memo tables hold. Here the same is lift
 `runCall` that are compositions of `restrict`, constant tests and reads of the node table:
 `grounded`, `complete`, `stable`, `stable_with_prefilter`, the queries and the extra formulas. The
 two searches (`countAll`, `SM.ngSearch`) are built from the same primitives plus reads of the node
-table (`countF`, `pathsF`, `depsOf`, `cubesF`); their lock-step lemma is not proved (statement kept:
-`memo_independent_statement`). -/
+table (`countF`, `pathsF`, `depsOf`, `cubesF`); their lock-step lemmas are in `SearchLock.lean`, the
+full statement `memo_independent_statement` is proved in `CallHistoryMemoFull.lean`
+(`CallH.memo_independent`). -/
 namespace CallH
 
 /-- two well-formed stores with the same node table (memo tables arbitrary) -/
@@ -284,7 +285,7 @@ structure MemoEq (st st' : AdfState) : Prop where
 theorem memoEq_store (n : Nat) (ac iss : List Nat) {r r' : Store} (h : Lk r r') :
     MemoEq ⟨r, n, ac, iss⟩ ⟨r', n, ac, iss⟩ := ⟨h, rfl, rfl, rfl⟩
 
-/-- the two searches, whose lock-step lemma is open -/
+/-- the two searches (their lock-step lemmas live in `SearchLock.lean`) -/
 def _root_.Call.isSearch : Call → Prop
   | .count _ => True
   | .ng _ _ _ => True
@@ -296,9 +297,8 @@ def memo_independent_statement : Prop :=
   ∀ (st st' : AdfState) (c : Call), Inv st → MemoEq st st' →
     (runCall st' c).2 = (runCall st c).2 ∧ MemoEq (runCall st c).1 (runCall st' c).1
 
-/-- proved for every call kind except the two searches (`count`, `ng`). Missing for those: the
-lock-step lemma of `countLogic` / `SM.ngIter` — same primitives (`restrictF`, constant tests) plus
-reads of the node table (`countF`, `pathsF`, `depsOf`, `cubesF`), no new idea needed. -/
+/-- every call kind except the two searches (`count`, `ng`); those are added by
+`CallH.memo_independent` (CallHistoryMemoFull.lean), which uses this lemma for the other kinds -/
 theorem memo_independent_partial (st st' : AdfState) (c : Call) (hi : Inv st) (h : MemoEq st st')
     (hc : ¬ c.isSearch) :
     (runCall st' c).2 = (runCall st c).2 ∧ MemoEq (runCall st c).1 (runCall st' c).1 := by
